@@ -15,6 +15,8 @@
 package connect
 
 import (
+	"encoding/json"
+	"errors"
 	"fmt"
 
 	"google.golang.org/protobuf/encoding/protojson"
@@ -89,6 +91,13 @@ func (c *protoJSONCodec) Unmarshal(binary []byte, message any) error {
 	protoMessage, ok := message.(proto.Message)
 	if !ok {
 		return errNotProto(message)
+	}
+	// The peer chose these bytes. protojson's scan for an Any's "@type" skips
+	// over the other values of the object without checking them, and the
+	// version we depend on doesn't terminate on some invalid input ({"":} is
+	// enough): check the syntax before handing them over.
+	if !json.Valid(binary) {
+		return errors.New("invalid JSON")
 	}
 	var options protojson.UnmarshalOptions
 	return options.Unmarshal(binary, protoMessage)
